@@ -181,33 +181,54 @@ func raceViolation(o *outcome) *violation {
 	if !raceRe.MatchString(o.stderr) {
 		return nil
 	}
-	// signature: the two top mysync frames of the report
-	idx := strings.Index(o.stderr, "WARNING: DATA RACE")
-	rest := o.stderr[idx:]
-	if e := strings.Index(rest, "=================="); e > 0 {
-		rest = rest[:e]
-	}
-	var frs []string
-	for _, l := range strings.Split(rest, "\n") {
-		l = strings.TrimSpace(l)
-		if strings.HasPrefix(l, "github.com/yandex/mysync/internal/") && !strings.Contains(l, "/verifsim") {
-			f := strings.TrimPrefix(l, "github.com/yandex/mysync/internal/")
-			if i := strings.Index(f, "("); i > 0 {
+	// one report = the block up to the closing ==================; judge every report
+	rest := o.stderr
+	for {
+		idx := strings.Index(rest, "WARNING: DATA RACE")
+		if idx < 0 {
+			return nil
+		}
+		rest = rest[idx+len("WARNING: DATA RACE"):]
+		rep := rest
+		if e := strings.Index(rep, "=================="); e > 0 {
+			rep = rep[:e]
+		}
+		// access stacks are the paragraphs starting with "Write at", "Read at", "Previous ..."
+		var tops []string
+		for _, para := range strings.Split(rep, "\n\n") {
+			lines := strings.Split(strings.TrimSpace(para), "\n")
+			if len(lines) < 2 {
+				continue
+			}
+			h := strings.TrimSpace(lines[0])
+			if !(strings.HasPrefix(h, "Write at") || strings.HasPrefix(h, "Read at") || strings.HasPrefix(h, "Previous ") || strings.HasPrefix(h, "Atomic ")) {
+				continue
+			}
+			f := strings.TrimSpace(lines[1])
+			if i := strings.LastIndex(f, "("); i > 0 {
 				f = f[:i]
 			}
-			if len(frs) == 0 || frs[len(frs)-1] != f {
-				frs = append(frs, f)
+			tops = append(tops, f)
+		}
+		// mysync's own shared memory: the accessing (top) frame of both stacks is mysync code
+		ok := len(tops) >= 2
+		for _, t := range tops {
+			if !strings.HasPrefix(t, "github.com/yandex/mysync/internal/") || strings.Contains(t, "/verifsim") {
+				ok = false
 			}
 		}
+		if !ok {
+			continue
+		}
+		for i := range tops {
+			tops[i] = strings.TrimPrefix(tops[i], "github.com/yandex/mysync/internal/")
+		}
+		sort.Strings(tops)
+		if len(tops) > 2 {
+			tops = tops[:2]
+		}
+		return &violation{Property: "C20", Clause: "race", Signature: "C20/race/" + strings.Join(tops, "+"), Detail: "data race reported by the race detector"}
 	}
-	if len(frs) == 0 {
-		return nil // race inside the harness or a dependency: not mysync's shared memory
-	}
-	if len(frs) > 2 {
-		frs = frs[:2]
-	}
-	sort.Strings(frs)
-	return &violation{Property: "C20", Clause: "race", Signature: "C20/race/" + strings.Join(frs, "+"), Detail: "data race reported by the race detector"}
 }
 
 type candidate struct {
